@@ -7,6 +7,8 @@
 \* i64, f64, bytes, sequence.
 \* + carriers: the properties as one slice, as And of two maps, as event + ambient ThreadLocalCtxt frame through
 \* emit_core::emit (12 x 12 cross-side pairs x 3 kinds x 2 carriers).
+\* + value forms (fixed-size arrays / Options of primitives, borrowed byte array), template forms (formatted hole,
+\* literal), 128-bit metric values; the terminal sink as stdout / stderr, colored or not.
 SPECIFICATION Spec
 CONSTANTS
     Events <- MC_Events
